@@ -110,7 +110,8 @@ func checkC04(c *hx.Checker) {
 		}
 	}
 	// larger operands: beyond the exhaustive box, to reach size-dependent code paths (blocked / parallel gemm)
-	for _, sp := range [][2][]int{{{70, 65}, {65, 66}}, {{3, 40, 50}, {50, 30}}, {{2, 1, 17, 9}, {3, 9, 33}}, {{129}, {129, 5}}, {{5, 200}, {200}}, {{1, 64, 64}, {64, 64}}} {
+	for _, sp := range [][2][]int{{{70, 65}, {65, 66}}, {{3, 40, 50}, {50, 30}}, {{2, 1, 17, 9}, {3, 9, 33}}, {{129}, {129, 5}}, {{5, 200}, {200}}, {{1, 64, 64}, {64, 64}},
+		{{257, 3}, {3, 259}}, {{4099}, {4099}}, {{1, 4099}, {4099, 3}}, {{7, 67, 5}, {5, 71}}, {{131, 129}, {129, 131}}} {
 		mm(ref.F32, sp[0], sp[1], "op", nil)
 	}
 	for _, dt := range gateDTs("MatMul", 0) {
